@@ -21,6 +21,14 @@ payload phase - also both at once, also with payloads handed over while one is i
 may move the connection to another cipher/MAC/compression; and the application may make calls the transport refuses
 (sendPacket with arguments no packet can be built from) in between the proper ones and carry on.
 
+Sizes, moments and the shape of the pipe are varied as well: the identification may be long (many or long banner lines, the whole of it
+at most the 4096 bytes the transport allows) and bulky messages may follow the version line, so that the delivery that completes the
+version line can be of any size; IGNORE/DEBUG messages (which a transport may send during a key exchange) are sent at any moment of any
+key exchange, also between a side's own NEWKEYS and its peer's; the services answer payloads from inside packetReceived, and the
+connection can turn for a while into a synchronous in-memory pipe (write() hands the bytes to the peer at once), so that sends nest in
+sends; and a connection may be old: its packet counters start anywhere in their 32-bit range, also a few packets before they wrap
+(RFC 4253 6.4).
+
 Oracle: without tampering the payloads dispatched to each side's service are
 exactly the payloads the other side sent, in order; with tampering the receiver
 disconnects (after having received at most the claimed packet length) and the
@@ -49,7 +57,8 @@ ID = "C35"
 ENGINE = "net"
 LEVEL = "exploration"
 TECHNIQUE = ("deterministic simulation: real SSH client/server transports over a simulated link, real key exchange, "
-             "seeded cipher/MAC/compression configuration, payloads, segmentation and single-byte tampering; reference = list of payloads sent")
+             "seeded cipher/MAC/compression configuration, payloads, segmentation (asynchronous link, at times a synchronous pipe) and "
+             "single-byte tampering; reference = list of payloads sent")
 QUICK_RUNS = 16000
 TWIN_P = 0.08   # this share of the runs drives two independent instances of the scenario one after the other (detsim.runner._run_scenario)
 BATCH = 60
@@ -58,7 +67,8 @@ COMPONENTS = {
     "real": ["twisted.conch.ssh.transport.SSHServerTransport", "twisted.conch.ssh.transport.SSHClientTransport",
              "SSHTransportBase.dataReceived/getPacket/sendPacket/sendKexInit/_newKeys/dispatchMessage", "SSHCiphers (cryptography backend)",
              "real curve25519-sha256 key exchange with an Ed25519 host key (fixtures/ssh_host_ed25519_key)"],
-    "stub": ["TCP connection: detsim.net.Link (segmentation, tampering)", "SSHService (records packetReceived)",
+    "stub": ["TCP connection: detsim.net.Link (segmentation, tampering; for a conversation a synchronous pipe built on its on_write hook)",
+             "SSHService (records packetReceived, may answer from inside it)",
              "server factory (host keys only)", "verifyHostKey (accepts; optionally asynchronously)",
              "randbytes.secureRandom (tape-driven)"],
 }
@@ -73,25 +83,41 @@ RULE = ("run = one cipher x MAC x compression choice, 0..3 banner lines before t
         "knob async_verify_before_rekey (90% of the runs): only then may the host-key answer be outstanding in a key exchange that is "
         "followed by another one - the precondition of the finding 'client keeps _gotNewKeys set across key exchanges', repaired in /repo "
         "(witness suffix +rekey-after-newkeys-overtook-host-key-answer); "
+        "sizes/moments/pipe: 12% of the runs have a long banner (lines of 40..1000 bytes up to an identification of 1.5 KiB .. exactly 4096 bytes), "
+        "15% bulky early IGNORE/DEBUG messages (1..5 KB), so that the delivery completing a version line can be of any size; 0..4 IGNORE/DEBUG "
+        "messages sent by a side at any point of any key exchange it is in (also between its own NEWKEYS and the peer's); 0..4 answers given by "
+        "the services from inside packetReceived; clean family, 30%: conversations over a synchronous pipe (write() delivers at once, each "
+        "direction a FIFO, a protocol inside dataReceived gets its bytes when that call returns) with 1..4 answers each, so that sendPacket "
+        "calls nest; 25% old connections: each direction's packet counters start just below 2^16, 2^24, 2^31, 2^32-100000 or 1..80 packets "
+        "before 2^32; knobs allow_big_ident_delivery / allow_window_message / allow_nested_send / allow_seq_wrap (module constants *_P): only "
+        "then may a run meet the precondition of one of the four round-6 findings listed in MUTANTS, all REPAIRED in /repo (witness identification-within-4KiB+"
+        "version-delivery-beyond-4KiB, suffixes +transport-message-between-own-and-peer-newkeys, +send-nested-in-send, +sequence-number-wraps); "
         "non-trivial = key exchange completed, at least one payload was dispatched, the wire was cut at least once and (clean family or the tamper was applied)")
 ASSUMPTIONS = [
     "only the server sends identification lines before its version string (RFC 4253 4.2); banner lines never START with 'SSH-' "
     "(they may contain it elsewhere), end in CR LF and contain no other CR/LF",
-    "everything a side sends before the peer's version string is complete stays below the transport's 4 KiB identification limit",
-    "payload message numbers are >= 50 (service range); transport-level noise is IGNORE/DEBUG only: cleartext during the initial key "
-    "exchange (at most 3 short messages), encrypted IGNORE afterwards",
+    "the identification a side sends (banner lines + version line, line terminators included) is at most the 4096 bytes the transport "
+    "allows; what follows the version line in the stream is not limited, however the stream is cut into deliveries",
+    "payload message numbers are >= 50 (service range); transport-level noise is IGNORE/DEBUG only: up to 3 messages right behind the "
+    "KEXINIT (short, or 1..5 KB), up to 4 short ones at any later point of a key exchange, IGNORE outside key exchanges",
+    "the application may send from inside packetReceived; a synchronous pipe is a legal transport as long as each direction stays a FIFO "
+    "and no protocol is re-entered in dataReceived (bytes written towards a protocol that is inside dataReceived reach it when that call "
+    "has returned); sendPacket may therefore be entered while an outer sendPacket of the same transport is inside transport.write",
+    "packet counters are 32-bit and wrap (RFC 4253 6.4); a connection's age is set by giving outgoingPacketSequence of one side and "
+    "incomingPacketSequence of the other the same start value before the connection is made (2^32 real packets are out of reach)",
     "version strings are 'SSH-2.0-' (server also 'SSH-1.99-') + printable software version without '-'/space + optional comment; "
     "they are not checked against RFC 4253's 255-byte limit (all are shorter)",
     "a transport that called loseConnection() is not fed further input (what a real TCP transport does: stopReading)",
     "a further key exchange is started (sendKexInit) only by a side whose previous one is complete (anything else is refused with "
-    "RuntimeError by contract); IGNORE traffic is sent only outside key exchanges; the supported* lists are changed only on both ends "
-    "together while nothing is in flight",
+    "RuntimeError by contract); the supported* lists are changed only on both ends together while nothing is in flight",
     "a refused call is one that cannot be made into a packet: payload of type str/None, message number outside a byte; while a key "
     "exchange is in progress it is made with a message type that is sent straight away (IGNORE/DEBUG) - other types are put aside "
-    "unseen until the key exchange ends, so there is no call-time refusal to speak of.  No verdict on the refused call itself; it is "
+    "unseen until the key exchange ends, so there is no call-time refusal to speak of (for the same reason none is made between a side's "
+    "own NEWKEYS and its peer's, where a transport may put everything aside).  No verdict on the refused call itself; it is "
     "not a payload sent, and everything sent before and after it must arrive",
     "in the tamper family 'disconnect' is demanded once the receiver got at least 1 MiB + the packet (a length field altered upwards "
-    "makes any implementation wait for that many bytes)",
+    "makes any implementation wait for that many bytes); no demand if the sender's transport does not put the keep-talking IGNORE "
+    "on the wire (it may hold it back at some point of a key exchange)",
 ]
 LEVEL_NOTE = ("ciphertext is not reproducible (unseedable KEX randomness); with a CBC cipher a byte altered inside the first cipher block "
               "garbles the length field key-dependently (probability 2^-12 of a plausible length), which can change the step count but not the verdict")
@@ -120,6 +146,18 @@ FILLER = random.Random(35).randbytes(60000)     # fixed, incompressible keep-tal
 # from it.  ALWAYS_AVOID = True (edit in a scratch copy, dev-time only) keeps every run away, so that a mutant is not answered for by them.
 ALWAYS_AVOID = False
 ASYNC_VERIFY_BEFORE_REKEY_P = 0.9
+# Four genuine defects of the tree as first examined, found in round 6 and all REPAIRED in /repo (c6f8bdf, 7673e45, 808bd5c, aed555c; see
+# MUTANTS): each precondition is let into the share of the runs its knob names (0.5 each), every verdict of a run that met the
+# precondition carries the witness suffix given, and the other runs keep away from the precondition (probes *_avoided).  Setting a knob
+# to 0 is only for dev-time comparison with a tree without the repair.
+BIG_IDENT_DELIVERY_P = 0.5          # the delivery that completes the version line may make more than 4096 bytes together with what was
+                                    # delivered before it (witness identification-within-4KiB+version-delivery-beyond-4KiB)
+NOISE_IN_NEWKEYS_WINDOW_P = 0.5     # IGNORE/DEBUG may be sent between a side's own NEWKEYS and its peer's (+transport-message-between-own-and-peer-newkeys)
+NESTED_SEND_P = 0.5                 # over the synchronous pipe an answer may be sent from inside the answered side's own sendPacket (+send-nested-in-send)
+SEQ_WRAP_P = 0.5                    # an old connection's packet counters may be few enough packets before 2**32 to wrap (+sequence-number-wraps)
+IDENT_LIMIT = 4096                  # what SSHTransportBase allows for banner lines + version line
+BULK_TEXT = b"welcome to the machine; all activity may be logged. " * 24
+MSG_NEWKEYS = transport.MSG_NEWKEYS
 
 
 class Factory:
@@ -144,11 +182,15 @@ class Recorder(service.SSHService):
     def serviceStopped(self):
         self.stopped += 1
 
+    answer = None        # set by run(): the application's reaction to a payload, from inside the dispatch
+
     def packetReceived(self, messageNum, payload):
         self.got.append((messageNum, payload))
         self.sim.event(self.who, "dispatch", messageNum, len(payload))
         if self.transport.newkeys_count > 1:
             self.sim.probe("payload_dispatched_after_rekey")
+        if self.answer is not None:
+            self.answer()
 
 
 class _Observe:
@@ -158,13 +200,24 @@ class _Observe:
         self.wire = []              # (write index, messageType, payload length, payload) per packet put on the wire
         self.newkeys_at = None      # index into transport.writes of the first packet protected by the new keys
         self.newkeys_count = 0      # completed key exchanges (1 = the initial one, more = re-keys)
+        self.newkeys_sent = 0       # NEWKEYS messages put on the wire
+        self.send_depth = 0         # sendPacket calls in progress (more than one: the pipe delivered from inside write())
 
     def sendPacket(self, messageType, payload):
         t = self.transport
         n0 = len(t.writes)
-        transport.SSHTransportBase.sendPacket(self, messageType, payload)
+        self.send_depth += 1
+        if self.send_depth > 1:
+            self.h.nested_send = True
+            self.h.sim.probe("send_nested_in_send")
+        try:
+            transport.SSHTransportBase.sendPacket(self, messageType, payload)
+        finally:
+            self.send_depth -= 1
         if len(t.writes) > n0:
             self.wire.append((n0, messageType, payload))
+            if messageType == MSG_NEWKEYS:
+                self.newkeys_sent += 1
 
     def _newKeys(self):
         if self.newkeys_at is None:
@@ -210,6 +263,8 @@ class Harness:
         self.async_before_rekey = True
         self.newkeys_overtook_verify = False
         self.rekey_after_overtaken_verify = False
+        self.nested_send = False            # a sendPacket call ran inside another one of the same transport
+        self.window_message = False         # a transport-level message was sent between a side's own NEWKEYS and its peer's
 
     def verify_host_key(self):
         if not self.async_verify:
@@ -252,12 +307,27 @@ def run(sim):
     nsend += nrekey                     # something is left to say after a re-key
     h.rekeys_left = nrekey
     h.async_before_rekey = sim.draw_bool(ASYNC_VERIFY_BEFORE_REKEY_P, "async_verify_before_rekey") and not ALWAYS_AVOID
+    # sizes, moments and the shape of the pipe (see the module docstring); the four allow_* knobs keep most runs away from the
+    # preconditions of the findings listed at the knob constants
+    long_banner = sim.draw_bool(0.12, "long_banner")
+    bulky_noise = sim.draw_bool(0.15, "bulky_noise")
+    kex_noise = sim.draw_weighted([(0, 3), (1, 3), (2, 2), (4, 1)], "noise_during_any_kex")
+    nanswer = sim.draw_weighted([(0, 4), (1, 2), (2, 2), (4, 1)], "answers")
+    sync_talk = sim.draw_bool(0.3, "synchronous_conversations") and family == "clean"
+    age = sim.draw_weighted([("new", 6), ("old", 2)], "connection_age")
+    allow_big_ident_delivery = sim.draw_bool(BIG_IDENT_DELIVERY_P, "allow_big_ident_delivery") and not ALWAYS_AVOID
+    allow_window_message = sim.draw_bool(NOISE_IN_NEWKEYS_WINDOW_P, "allow_window_message") and not ALWAYS_AVOID
+    allow_nested_send = sim.draw_bool(NESTED_SEND_P, "allow_nested_send") and not ALWAYS_AVOID
+    allow_seq_wrap = sim.draw_bool(SEQ_WRAP_P, "allow_seq_wrap") and not ALWAYS_AVOID
     sim.config = {"cipher": cipher.decode(), "mac": mac.decode(), "compression": comp.decode(), "family": family, "banner_lines": nbanner,
                   "avoid_banner_split": avoid_banner_split, "async_verify": h.async_verify, "early_send": early_send,
                   "segmentation": seg, "nsend": nsend, "banner_style": banner_style, "own_version_strings": own_versions,
                   "early_noise": nnoise, "allow_marker_split": allow_marker_split, "allow_marker_line_noise": allow_marker_line_noise,
                   "rekeys": nrekey, "renegotiate": renegotiate, "refused_calls": nrefuse,
-                  "async_verify_before_rekey": h.async_before_rekey}
+                  "async_verify_before_rekey": h.async_before_rekey,
+                  "long_banner": long_banner, "bulky_noise": bulky_noise, "noise_during_any_kex": kex_noise, "answers": nanswer,
+                  "synchronous_conversations": sync_talk, "connection_age": age, "allow_big_ident_delivery": allow_big_ident_delivery,
+                  "allow_window_message": allow_window_message, "allow_nested_send": allow_nested_send, "allow_seq_wrap": allow_seq_wrap}
     amounts = {"mixed": (None, 1000, 64, 17, 8, 5, 3, 2, 1), "whole": (None,), "tiny": (8, 5, 3, 2, 1, 17), "big": (None, 1000, 300, 64)}[seg]
 
     client, server = Client(h), Server(h)
@@ -306,6 +376,58 @@ def run(sim):
                 p.ourVersionString = v
                 sim.probe("own_version_string")
                 sim.event(who, "version-string", len(v), "marker-in-comment" if MARKER in v[4:] else "-")
+    if long_banner:
+        # many and/or long lines; the identification as a whole (lines + version line) stays within what the transport allows
+        room = IDENT_LIMIT - (len(banner) + len(server.ourVersionString) + 2)
+        target = sim.draw_choice([1500, 3000, room - 300, room - 1, room], "banner_bulk")
+        added = 0
+        while target - added >= 2:
+            n = min(sim.draw_choice([64, 40, 80, 200, 1000], "bulk_line"), target - added)
+            if target - added - n == 1:
+                n += 1
+            banner += BULK_TEXT[:n - 2] + b"\r\n"
+            added += n
+            line_ends.add(len(banner))
+            nbanner += 1
+        sim.probe("long_banner")
+        sim.probe("identification_fills_the_limit", 1 if len(banner) + len(server.ourVersionString) + 2 == IDENT_LIMIT else 0)
+    # the connection's age: the 32-bit packet counters of the two directions start where an earlier life of the connection left
+    # them (RFC 4253 6.4: never reset, wrapping around) - at powers of two, or a few packets before the wrap
+    seq0 = {"C": 0, "S": 0}
+    if age == "old":
+        for k in ("C", "S"):
+            if sim.draw_bool(0.7, "old_direction"):
+                if allow_seq_wrap:
+                    seq0[k] = 2 ** 32 - sim.draw_int(1, 80, "packets_to_wrap")
+                else:
+                    seq0[k] = sim.draw_choice([65536, 2 ** 24, 2 ** 31, 2 ** 32 - 100000], "seq_near") - sim.draw_int(1, 40, "packets_to")
+                    sim.probe("old_connection_far_from_wrap")
+        client.outgoingPacketSequence = server.incomingPacketSequence = seq0["C"]
+        server.outgoingPacketSequence = client.incomingPacketSequence = seq0["S"]
+        sim.event("connection-age", "C" if seq0["C"] else "-", "S" if seq0["S"] else "-", "near-wrap" if allow_seq_wrap else "-")
+
+    def seq_wraps():
+        """A counter of a direction that started a few packets before 2**32 is about to pass it, or has (read off the counters only)."""
+        for k, o in (("C", "S"), ("S", "C")):
+            if seq0[k] >= 2 ** 32 - 80:
+                for n in (proto[k].outgoingPacketSequence, proto[o].incomingPacketSequence):
+                    if n + 16 >= 2 ** 32 or n < seq0[k]:
+                        return True
+        return False
+
+    def circs():
+        """The circumstances of the findings this module met (see the knob constants), read off the schedule only: they name the
+        verdicts of the runs that met them."""
+        c = "+rekey-after-newkeys-overtook-host-key-answer" if h.rekey_after_overtaken_verify else ""
+        if h.window_message:
+            c += "+transport-message-between-own-and-peer-newkeys"
+        if h.nested_send:
+            c += "+send-nested-in-send"
+        if seq_wraps():
+            sim.probe("sequence_number_at_the_wrap")
+            c += "+sequence-number-wraps"
+        return c
+
     old_random = randbytes.secureRandom
     randbytes.secureRandom = lambda n, fallback=False: sim.draw_blob(n)
     try:
@@ -326,6 +448,11 @@ def run(sim):
                 # (the length prefix counts: a 10-byte string is preceded by the byte 0x0a)
                 text = text.replace(MARKER, b"SSH+")
                 sim.probe("noise_marker_line_avoided")
+            if bulky_noise:
+                # (text that cannot be mistaken for a line: no CR/LF)
+                bulk = sim.draw_choice([0, 1000, 3000, 5000, 3600], "noise_bulk")
+                text += BULK_TEXT[:40] * (bulk // 40)
+                sim.probe("bulky_cleartext_noise", 1 if bulk else 0)
             as_debug = sim.draw_bool(0.3, "debug")
             sim.event("client" if s == "C" else "server", "early-noise", "DEBUG" if as_debug else "IGNORE", len(text),
                       "marker-line" if b"\n" + MARKER in NS(text) else "-")
@@ -344,7 +471,17 @@ def run(sim):
 
         def deliver(name, amount, label):
             before = len(link.delivered[name])
-            with sim.guard("transport-raised", side_of[name] + "-" + label):
+            if before < ident_end[name]:
+                # the delivery that completes the version line may be of any size, whatever was delivered before it
+                avail = len(link.flight[name])
+                n = avail if amount is None else max(1, min(amount, avail))
+                if before + n > IDENT_LIMIT:
+                    if allow_big_ident_delivery:
+                        sim.probe("version_delivery_beyond_4KiB")
+                    else:
+                        amount = IDENT_LIMIT - before
+                        sim.probe("version_delivery_beyond_4KiB_avoided")
+            with sim.guard("transport-raised", side_of[name] + "-" + label + circs()):
                 link.do("deliver", name, amount)
             if before < ident_end[name]:
                 ident_verdict(name, len(link.delivered[name]))
@@ -356,7 +493,9 @@ def run(sim):
             who = "client" if name == "A" else "server"
             complete = got >= ident_end[name]
             circ = None
-            if not complete and got in line_ends and name == "A":
+            if complete and got > IDENT_LIMIT:
+                circ = "identification-within-4KiB+version-delivery-beyond-4KiB"
+            elif not complete and got in line_ends and name == "A":
                 circ = "banner-line-end-at-segment-boundary"
                 sim.probe("delivery_ends_at_banner_line_end")
             elif not complete and name == "A" and marker_in_banner and got >= ident_start[name] + len(MARKER):
@@ -450,7 +589,7 @@ def run(sim):
             if kind == "deliver":
                 deliver(name, amount, kind)
             else:
-                with sim.guard("transport-raised", side_of[name] + "-" + kind):
+                with sim.guard("transport-raised", side_of[name] + "-" + kind + circs()):
                     link.do(kind, name, amount)
             maybe_tamper()
             return True
@@ -459,7 +598,8 @@ def run(sim):
         server_ident = len(banner) + len(server.ourVersionString) + 2
         link.do("xmit", "B")
         maybe_tamper()
-        pieces = net.cut(sim, bytes(link.flight["A"][:server_ident]), boundaries=sorted(line_ends) + [server_ident])
+        pieces = net.cut(sim, bytes(link.flight["A"][:server_ident]), boundaries=sorted(line_ends) + [server_ident],
+                         style=sim.draw_choice(["whole", "one", "few", "edges", "many"], "long_cutstyle") if long_banner else None)
         def keep_away(end):
             # the preconditions of the identification findings: a delivery ending exactly at the end of a banner line (fixed in /repo), or
             # inside the version line (marker already there) behind a banner line that mentions the marker
@@ -521,8 +661,75 @@ def run(sim):
         def idle():
             return established("C") and established("S") and not link.enabled() and h.pending_verify is None
 
+        def in_window(s):
+            # the side's NEWKEYS of the key exchange in progress is on the wire, the peer's has not arrived (read off the wire)
+            return proto[s].newkeys_sent > proto[s].newkeys_count
+
+        def noise_senders():
+            out = []
+            for s in ("C", "S"):
+                if not (noise_left[0] and alive(s) and tr[s].connected and proto[s]._keyExchangeState != proto[s]._KEY_EXCHANGE_NONE):
+                    continue
+                if in_window(s) and not allow_window_message:
+                    sim.probe("message_between_own_and_peer_newkeys_avoided")
+                    continue
+                out.append(s)
+            return out
+
+        # ------------------------------------------------------------ applications that answer from inside the dispatch
+        answers = [nanswer]                 # answers left to give (a conversation brings its own)
+        talking = [False]
+
+        def answer(me):
+            if answers[0] <= 0 or not alive(me) or not sim.draw_bool(0.8 if talking[0] else 0.5, "answer"):
+                return
+            if proto[me].send_depth and not allow_nested_send:
+                # keeps the run away from the precondition of the nested-send finding: this dispatch runs inside our own sendPacket
+                sim.probe("send_nested_in_send_avoided")
+                return
+            answers[0] -= 1
+            mt = sim.draw_choice([94, 50, 90, 255, 80, 100], "msgtype")
+            pl = sim.draw_blob(sim.draw_int(0, 24, "n"))
+            sent[me].append((mt, pl))
+            sim.probe("payload_sent_from_inside_dispatch")
+            sim.event("client" if me == "C" else "server", "answer", mt, len(pl),
+                      "queued" if proto[me]._keyExchangeState != proto[me]._KEY_EXCHANGE_NONE else "now")
+            with sim.guard("sendPacket-raised", me + "-answer" + circs()):
+                proto[me].sendPacket(mt, pl)
+
+        svc["C"].answer = lambda: answer("C")
+        svc["S"].answer = lambda: answer("S")
+
+        # ------------------------------------------------------------ the connection as a synchronous in-memory pipe (for a conversation)
+        busy = {"A": False, "B": False}
+
+        def sync_write(t, data):
+            # write() hands everything written so far to the peer at once; each direction stays a FIFO
+            link.do("xmit", t.name)
+            sync_pump(t.peer_t.name)
+
+        def sync_pump(name):
+            if busy[name]:
+                # that protocol is inside dataReceived: it gets the bytes when the call has returned
+                sim.probe("sync_write_queued_behind_running_delivery")
+                return
+            busy[name] = True
+            try:
+                t = link.a if name == "A" else link.b
+                while link.flight[name] and not t.disconnecting and not t.disconnected:
+                    steps[0] += 1
+                    amount = sim.draw_choice(amounts, "amount") if steps[0] < 1500 else None
+                    if amount is not None:
+                        sim.fault("segmentation")
+                    if busy["B" if name == "A" else "A"]:
+                        sim.probe("sync_delivery_nested_in_peer_delivery")
+                    deliver(name, amount, "sync-deliver")
+            finally:
+                busy[name] = False
+
         remaining = nsend
         refusals_left = nrefuse
+        noise_left = [kex_noise]
         undefined = set()                   # senders whose output stopped being predictable (a refused call was made into a packet)
         guard_steps = 0
         while True:
@@ -531,14 +738,18 @@ def run(sim):
             rekeyers = [s for s in ("C", "S") if h.rekeys_left and remaining and alive(s) and established(s)]
             # a refused call: any time the connection is up; while a key exchange is in progress only with a message type that is sent
             # straight away (others are put aside unseen until the key exchange ends - no call-time verdict to be had)
-            refusers = [s for s in ("C", "S") if refusals_left and remaining and alive(s) and tr[s].connected]
+            # (not between a side's own NEWKEYS and its peer's: a transport may put everything aside there)
+            refusers = [s for s in ("C", "S") if refusals_left and remaining and alive(s) and tr[s].connected and not in_window(s)]
+            noisers = noise_senders()
             ops = [("net", 10 if usable(link.enabled()) else 0),
                    ("sendC", 3 if (remaining and can_send("C")) else 0),
                    ("sendS", 3 if (remaining and can_send("S")) else 0),
                    ("verify", 4 if h.pending_verify is not None else 0),
                    ("ignore", 1 if (remaining and not early_send and (can_send("C") or can_send("S"))) else 0),
                    ("rekey", 2 if rekeyers else 0),
-                   ("refuse", 1 if refusers else 0)]
+                   ("refuse", 1 if refusers else 0),
+                   ("kexnoise", 2 if noisers else 0),
+                   ("converse", 2 if (sync_talk and remaining and established("C") and established("S") and alive("C") and alive("S")) else 0)]
             if not any(w for _, w in ops):
                 break
             op = sim.draw_weighted(ops, "op")
@@ -554,19 +765,19 @@ def run(sim):
                           "queued" if proto[s]._keyExchangeState != proto[s]._KEY_EXCHANGE_NONE else "now")
                 if proto[s]._keyExchangeState != proto[s]._KEY_EXCHANGE_NONE:
                     sim.probe("payload_queued_during_kex")
-                with sim.guard("sendPacket-raised", s):
+                with sim.guard("sendPacket-raised", s + circs()):
                     proto[s].sendPacket(mt, pl)
                 maybe_tamper()
             elif op == "verify":
                 d, h.pending_verify = h.pending_verify, None
                 sim.event("client", "host-key-verified")
-                with sim.guard("transport-raised", "C-verify"):
+                with sim.guard("transport-raised", "C-verify" + circs()):
                     d.callback(True)
                 maybe_tamper()
             elif op == "ignore":
                 s = "C" if can_send("C") else "S"
                 sim.event("client" if s == "C" else "server", "sendIgnore")
-                with sim.guard("sendPacket-raised", s):
+                with sim.guard("sendPacket-raised", s + circs()):
                     proto[s].sendIgnore(sim.draw_blob(sim.draw_int(0, 40, "n")))
                 maybe_tamper()
             elif op == "rekey":
@@ -600,7 +811,7 @@ def run(sim):
                 if h.newkeys_overtook_verify and not h.rekey_after_overtaken_verify:
                     h.rekey_after_overtaken_verify = True
                     sim.probe("rekey_after_newkeys_overtook_host_key_answer")
-                with sim.guard("transport-raised", s + "-rekey"):
+                with sim.guard("transport-raised", s + "-rekey" + circs()):
                     proto[s].sendKexInit()
                 maybe_tamper()
             elif op == "refuse":
@@ -625,24 +836,72 @@ def run(sim):
                 elif wrote:
                     undefined.add(s)            # the transport made a packet out of it: no telling what the peer should get
                 maybe_tamper()
+            elif op == "kexnoise":
+                # a message a transport may send while a key exchange is in progress (RFC 4253 7.1), at whatever point that exchange is
+                s = sim.draw_choice(noisers, "noise_side")
+                as_debug = sim.draw_bool(0.3, "debug")
+                noise_left[0] -= 1
+                window = in_window(s)
+                if window:
+                    h.window_message = True
+                    sim.probe("message_between_own_and_peer_newkeys")
+                sim.probe("noise_during_later_kex" if proto[s].newkeys_count else "noise_inside_initial_kex")
+                sim.event("client" if s == "C" else "server", "kex-noise", "DEBUG" if as_debug else "IGNORE", "after-own-NEWKEYS" if window else "-")
+                text = sim.draw_blob(sim.draw_int(0, 40, "n"))
+                with sim.guard("sendPacket-raised", s + "-kex-noise" + circs()):
+                    if as_debug:
+                        proto[s].sendDebug(text, sim.draw_bool(0.5, "display"))
+                    else:
+                        proto[s].sendIgnore(text)
+                maybe_tamper()
+            elif op == "converse":
+                # for one exchange the connection is a synchronous pipe: the payload is handed to the peer from inside sendPacket, the
+                # peer's application answers from inside its packetReceived, the answer is dispatched here while our sendPacket is
+                # still running, our application answers that ...
+                s = sim.draw_choice(["C", "S"], "talker")
+                mt = sim.draw_choice([94, 50, 90, 255, 80, 100], "msgtype")
+                pl = payload()
+                remaining -= 1
+                sent[s].append((mt, pl))
+                mine, answers[0] = answers[0], sim.draw_int(1, 4, "conversation_answers")
+                sim.event("client" if s == "C" else "server", "converse", mt, len(pl), answers[0])
+                sim.probe("synchronous_conversation")
+                talking[0] = True
+                link.a.on_write = link.b.on_write = sync_write
+                try:
+                    with sim.guard("sendPacket-raised", s + "-converse" + circs()):
+                        proto[s].sendPacket(mt, pl)
+                finally:
+                    link.a.on_write = link.b.on_write = None
+                    talking[0] = False
+                    answers[0] = mine
             if remaining == 0 and not usable(link.enabled()) and h.pending_verify is None:
                 break
 
         # ------------------------------------------------------------ verdict
         kex_done = client.newkeys_at is not None and server.newkeys_at is not None
         # the circumstance of the re-key finding (see RULE), read off the schedule only, names the verdicts of the runs that met it
-        circ = "+rekey-after-newkeys-overtook-host-key-answer" if h.rekey_after_overtaken_verify else ""
+        circ = circs()
+        for k, o in (("C", "S"), ("S", "C")):
+            if seq0[k] and not seq0[k] <= proto[k].outgoingPacketSequence < 2 ** 32:
+                sim.probe("sequence_number_passed_the_wrap")
         if tam["want"] and tam["done"]:
             s = tam["dir"]
             r = "S" if s == "C" else "C"
             # a length field altered upwards makes the receiver wait for the claimed length: keep the sender talking
             # (no draws, no events: how long this takes depends on the key only for CBC first-block damage)
             filler = 0
+            mute = False
+            answers[0] = 0
             w0 = len(tr[s].written)
             # (IGNORE may be sent in any key exchange state: the sender may be left waiting inside a re-key that the altered packet was part of)
             while (not tr[r].disconnecting and not tr[r].disconnected and not tr[s].disconnecting and not tr[s].disconnected
                    and len(tr[s].written) - w0 < 1048576 + 70000):
+                n0 = len(tr[s].written)
                 proto[s].sendIgnore(FILLER)
+                if len(tr[s].written) == n0:
+                    mute = True         # (a transport may hold IGNORE back at some point of a key exchange)
+                    break
                 filler += 1
                 if tr[s].out:
                     link.do("xmit", "A" if s == "C" else "B")
@@ -653,17 +912,18 @@ def run(sim):
                 sim.probe("tamper_needed_filler")
             got = svc[r].got
             exp = tam["expect"]
-            sim.check("tampered-payload-not-dispatched", len(got) <= len(exp), tam["region"],
+            sim.check("tampered-payload-not-dispatched", len(got) <= len(exp), tam["region"] + circ,
                       lambda: "receiver dispatched %d payloads but only %d were sent before the altered packet (altered byte %d of a %d-byte packet, %s %s %s)"
                       % (len(got), len(exp), tam["off"], tam["plen"], cipher.decode(), mac.decode(), comp.decode()))
-            sim.check("tamper-detected", tr[r].disconnecting or tr[r].disconnected, tam["region"],
+            # (no verdict when the receiver is still waiting for the length the altered packet claims and the sender cannot say more)
+            sim.check("tamper-detected", tr[r].disconnecting or tr[r].disconnected or mute, tam["region"] + circ,
                       lambda: "one byte (offset %d, region %s) of a %d-byte MAC-protected packet was altered and the receiver did not disconnect (%s %s %s)"
                       % (tam["off"], tam["region"], tam["plen"], cipher.decode(), mac.decode(), comp.decode()))
             sim.check("payloads-before-tamper", got == exp or s in undefined, tam["region"] + circ,
                       lambda: "receiver dispatched %s; sent before the altered packet: %s" % (_brief(got), _brief(exp)))
             # the other direction: no verdict on completeness (the connection was torn down), but never anything unsent/reordered
             back = svc[s].got
-            sim.check("reverse-direction-prefix", back == sent[r][:len(back)] or r in undefined, "tamper-run",
+            sim.check("reverse-direction-prefix", back == sent[r][:len(back)] or r in undefined, "tamper-run" + circ,
                       lambda: "dispatched %s is not a prefix of what the peer sent %s" % (_brief(back), _brief(sent[r])))
         else:
             for s, r in (("C", "S"), ("S", "C")):
@@ -674,7 +934,7 @@ def run(sim):
                           "sender disconnecting=%s receiver disconnecting=%s)"
                           % (_brief(sent[s]), _brief(svc[r].got), kex_done, cipher.decode(), mac.decode(), comp.decode(),
                              proto[s].newkeys_count, proto[r].newkeys_count, nrefuse - refusals_left, tr[s].disconnecting, tr[r].disconnecting))
-            sim.check("key-exchange-completes", kex_done, "clean-run",
+            sim.check("key-exchange-completes", kex_done, "clean-run" + circ,
                       "nothing was altered, the link is quiescent, and the key exchange did not complete (client newkeys=%s server newkeys=%s)"
                       % (client.newkeys_at is not None, server.newkeys_at is not None))
             sim.check("no-disconnect", not (link.a.disconnecting or link.b.disconnecting or link.a.disconnected or link.b.disconnected) or bool(undefined),
@@ -717,4 +977,31 @@ MUTANTS = [
     "_newKeys: outgoingPacketSequence reset to 0 -> CAUGHT (payloads-delivered, already at the initial key exchange)",
     "sendPacket: sequence number consumed before the packet is built (seeded C35-r5b) -> CAUGHT (payloads-delivered / no-disconnect; needs a "
     "refused call followed by a payload)",
+    "dataReceived: identification limit `> 4096` -> `>= 4096` -> CAUGHT (version-exchange; needs an identification of exactly 4096 bytes); "
+    "`> 4000` -> CAUGHT (needs a long banner)",
+    "FINDING 1, genuine defect of the tree as first examined, REPAIRED in /repo c6f8bdf (knob BIG_IDENT_DELIVERY_P = 0.5 lets the precondition into half of the "
+    "runs; 0 only for dev-time comparison): dataReceived applied the 4096-byte identification limit to everything "
+    "buffered when the version line had arrived, packets behind it included: a legal identification (<= 4096 bytes) followed by packets in "
+    "ONE delivery of more than 4096 bytes in all (3.8 KB banner + version line + KEXINIT; or version line + KEXINIT + a 4 KB IGNORE towards "
+    "the server) was answered with DISCONNECT, the same stream cut behind the version line was accepted -> version-exchange:"
+    "identification-within-4KiB+version-delivery-beyond-4KiB.  Repair: the limit applies only while no version line is found.",
+    "FINDING 2, genuine defect of the tree as first examined, REPAIRED in /repo 7673e45 (knob NOISE_IN_NEWKEYS_WINDOW_P = 0.5; 0 only for dev-time comparison): "
+    "both directions switched to the new keys when the PEER's NEWKEYS arrived, so IGNORE/"
+    "DEBUG/UNIMPLEMENTED sent between our own NEWKEYS and the peer's went out under the old keys (cleartext in the first key exchange) behind "
+    "our NEWKEYS (RFC 4253 7.3: everything after NEWKEYS uses the new keys); the peer read them with the new keys: 'bad packet length'/"
+    "'bad MAC', connection and all later payloads lost -> payloads-delivered:* / no-disconnect:* / payloads-before-tamper:* with suffix "
+    "+transport-message-between-own-and-peer-newkeys.  Repair: every message is put aside from our NEWKEYS until _newKeys().",
+    "FINDING 3, genuine defect of the tree as first examined, REPAIRED in /repo 808bd5c (knob NESTED_SEND_P = 0.5; 0 only for dev-time comparison): "
+    "sendPacket incremented outgoingPacketSequence after transport.write; over a pipe that delivers "
+    "from inside write() the peer's answer was dispatched and answered while the outer call was still in write: the nested packet was "
+    "authenticated with the outer packet's sequence number -> peer: 'bad MAC' -> payloads-delivered:*+send-nested-in-send (this is the "
+    "situation seeded change C35-r5b claimed to repair).  Repair: increment before write (after the packet is built).",
+    "FINDING 4, genuine defect of the tree as first examined, REPAIRED in /repo aed555c (knob SEQ_WRAP_P = 0.5; 0 only for dev-time comparison): "
+    "the packet counters never wrapped: at 2^32 makeMAC/verify raised struct.error out of sendPacket/"
+    "dataReceived -> sendPacket-raised:*+sequence-number-wraps:error / transport-raised:*+sequence-number-wraps:error.  Repair: "
+    "`(n + 1) & 0xFFFFFFFF` in sendPacket and getPacket.",
+    "with the repairs applied (dev-time, before they were committed to /repo) and all four knobs at 0.9: 3 x 16000 runs clean, all nine seeded changes (four of them rebased) "
+    "still caught; on top of that: incoming counter not wrapped -> CAUGHT (transport-raised:*+sequence-number-wraps); outgoing increment "
+    "moved back behind transport.write -> CAUGHT (+send-nested-in-send); _newKeysSent set by the server only -> CAUGHT "
+    "(+transport-message-between-own-and-peer-newkeys)",
 ]
